@@ -51,3 +51,35 @@ def eq_judge(line, m, i):
 
 def default_feature_sets(tier):
     return [[], core.WIRE_FEATURES] if tier == "quick" else core.all_wire_feature_sets()
+
+
+def _refs(ty):
+    if ty[0] == "named":
+        return [ty[1]]
+    if ty[0] in ("opt", "vec"):
+        return _refs(ty[1])
+    return []
+
+
+def closure(schema, roots):
+    """names reachable from the roots through member types (the specification tables' graph)"""
+    seen, todo = [], list(roots)
+    while todo:
+        n = todo.pop(0)
+        if n in seen or n not in schema:
+            continue
+        seen.append(n)
+        d = schema[n]
+        if d["kind"] == "struct":
+            for f in d["fields"]:
+                todo += _refs(f["ty"])
+        elif d["kind"] == "untagged":
+            for _, t in d["variants"]:
+                todo += _refs(t)
+        elif d["kind"] == "custom" and n == "webauthn::FilteredPublicKeyCredentialParameters":
+            todo.append("webauthn::PublicKeyCredentialParameters")
+    return seen
+
+
+def request_types(schema):
+    return closure(schema, [t for _, t in REQUESTS.values()])
